@@ -27,7 +27,7 @@ CLAIM = (
     "For every point of the lattice the initial resampling coordinates equal canvas centre + rotation(scan direction) x (offset from the "
     "image centre) to 1e-9, the coordinates for 1, 2, 3 and 4 knots per scan line are identical, the canvas is sized per axis from that "
     "axis, the weight map sums to the number of image pixels for every image, KDE width and warp upsampling, and a stack of identical "
-    "images with equal scan directions is a fixed point of align_translation for upsampling factors 1, 2, 3 and 8 (knots move < 1e-5 px). "
+    "images with equal scan directions is a fixed point of align_translation for upsampling factors 1, 2, 3 and 8 (knots move < 1e-5 px); and on ONE object every ordered pair (thorough: triple) of preprocess configurations with the scan directions changed through the setter in between leaves the geometry of the last configuration only. "
     "The lattice is the right level: the defects live in shape/angle/knot-count corners (non-square, 1 knot, non-zero angle)."
 )
 NOTE = (
